@@ -86,4 +86,64 @@ theorem elements_abs {h : Heap} (ha : NoAlias h) (tag : Nat) : ∀ (fuel : Nat) 
       funext c
       simp only [abs_isElemNamed, abs_id, ← ih c]
 
+/-! ### without the `NoAlias` hypothesis: the tree unfolded through `childNodes` (the `self` attribute fragment where
+a node has one) -/
+
+/-- the list-of-lists model whose child list of a node is what `iter(node)` yields -/
+def toLLc (h : Heap) : DomTree.LL :=
+  { kids := childList h, kind := fun n => kindOf (h.kind n), text := h.text, name := h.name, next := h.next }
+
+@[simp] theorem toLLc_kids (h : Heap) : (toLLc h).kids = childList h := rfl
+@[simp] theorem toLLc_kind (h : Heap) (n : Id) : (toLLc h).kind n = kindOf (h.kind n) := rfl
+@[simp] theorem toLLc_text (h : Heap) : (toLLc h).text = h.text := rfl
+@[simp] theorem toLLc_name (h : Heap) : (toLLc h).name = h.name := rfl
+
+theorem toLLc_eq_toLL {h : Heap} (ha : NoAlias h) : toLLc h = toLL h := by
+  have : childList h = h.kids := funext (fun s => childList_eq ha s)
+  simp [toLLc, toLL, this]
+
+theorem textContent_child_c (h : Heap) : ∀ (fuel : Nat) (n : Id),
+    (if h.kind n = .text then h.text n else textContent fuel h n) = (DomTree.abs fuel (toLLc h) n).textContent := by
+  intro fuel
+  induction fuel with
+  | zero =>
+    intro n
+    by_cases hk : h.kind n = .text
+    · simp [hk, DomTree.abs, kindOf, DomTree.Tree.textContent]
+    · have : kindOf (h.kind n) ≠ .text := fun e => hk ((kindOf_text _).mp e)
+      simp [hk, textContent, DomTree.abs, this, DomTree.Tree.textContent, DomTree.textContentL]
+  | succ fuel ih =>
+    intro n
+    by_cases hk : h.kind n = .text
+    · simp [hk, DomTree.abs, kindOf, DomTree.Tree.textContent]
+    · have : kindOf (h.kind n) ≠ .text := fun e => hk ((kindOf_text _).mp e)
+      simp only [hk, if_false, textContent, DomTree.abs, toLLc_kind, toLLc_kids, toLLc_text, toLLc_name, this,
+        DomTree.Tree.textContent, textContentL_map]
+      congr 1
+      funext c
+      exact ih c
+
+theorem abs_isElemNamed_c (fuel : Nat) (h : Heap) (n : Id) (tag : Nat) :
+    (DomTree.abs fuel (toLLc h) n).isElemNamed tag = true ↔ (h.kind n = .elem ∧ h.name n = tag) := by
+  cases hk : h.kind n <;> cases fuel <;> simp [DomTree.abs, kindOf, hk, DomTree.Tree.isElemNamed]
+
+theorem elements_abs_c (h : Heap) (tag : Nat) : ∀ (fuel : Nat) (n : Id),
+    getElementsByTagName fuel h n tag = (DomTree.abs fuel (toLLc h) n).elementsByName tag := by
+  intro fuel
+  induction fuel with
+  | zero =>
+    intro n
+    simp only [getElementsByTagName, DomTree.abs]
+    split <;> simp [DomTree.Tree.elementsByName, DomTree.Tree.descendants, DomTree.descendantsL]
+  | succ fuel ih =>
+    intro n
+    by_cases hk : h.kind n = .text
+    · simp [getElementsByTagName, hk, DomTree.abs, kindOf, DomTree.Tree.elementsByName, DomTree.Tree.descendants]
+    · have : kindOf (h.kind n) ≠ .text := fun e => hk ((kindOf_text _).mp e)
+      simp only [getElementsByTagName, hk, if_false, DomTree.abs, toLLc_kind, toLLc_kids, this]
+      rw [DomTree.Tree.elementsByName, DomTree.Tree.descendants, descendantsL_map_elems]
+      congr 1
+      funext c
+      simp only [abs_isElemNamed_c, abs_id, ← ih c]
+
 end PlasVerif.Proofs.DomViews
